@@ -62,6 +62,7 @@ roots=[
  ('schema-diff:root:entity:invented[keys-field]', root(barent=hx('Widget')), [spec('keys','obj')]),
  ('regression: entity object with any-membership', root(desc=hx('the foo'),ent=hx('Thing'),part='2',anym=hx('alpha')+','+hx('second')), [spec('fa','str',req='1'), spec('fb','bool',arr='m',ar='1',amin='1')]),
  ('regression: entity without part, field keys of an entity object', root(ent=hx('Thing'),barent=hx('Widget')), [spec('keys','obj')]),
+ ('regression (seeded C04-m3): non-canonical names on array / map / single / enum properties', root(), [spec('htmlURLs','str',arr='1'), spec('labelsByID','str',arr='m'), spec('x2y','int',fmt='i32'), spec('URL','enum',eopts=hx('ALPHA'))]),
  ('regression: oneof root', root(kind='oneof',desc=hx('a oneof')), [spec('fa','obj',desc=hx('an option')), spec('fb','int',fmt='i32',r='1',min='3'), spec('fc','enum',eopts=hx('ALPHA'))]),
 ]
 which=sys.argv[1]
